@@ -270,8 +270,9 @@ Section Total.
     rewrite Hop, Hnp. cbv zeta.
     (* the tests before the permission checks first (an outermost-first case split would lose them) *)
     destruct (get (f_heap s) oc) as [[ch m|d k i m|t m]|].
-    1: match goal with |- context [if ?b then Some (if ?b2 then ROk else _) else None] => destruct b; [destruct b2|] end.
-    4,5: match goal with |- context [if ?b then Some ROk else None] => destruct b end.
+    1: match goal with |- context [if ?b then Some (if ?b2 then ROk else _) else if ?b3 then _ else None] =>
+         destruct b; [destruct b2|destruct b3] end.
+    5,6: match goal with |- context [if ?b then Some ROk else None] => destruct b end.
     all: cbv iota; brk_lite.
   Qed.
 
@@ -301,7 +302,7 @@ Section Total.
   Lemma chown_gen_total slm p uid gid : res_ok_if (sized p) (snd (chown_gen slm s v p uid gid)).
   Proof.
     unfold chown_gen. pose proof (nf p slm) as Hf. pose proof (child_get p slm) as Hg.
-    destruct ((v_idm v && negb (us_admin (v_user v))) || win v); [fin|].
+    destruct (win v); [fin|].
     destruct (sr_child (search_node s v p slm)) as [c|]; [|fin].
     specialize (Hg c eq_refl). brk_ok.
   Qed.
